@@ -79,8 +79,8 @@ CHECKS = {
         technique="trace validation against Bitstream.tla (intra placement by display position, DPB reset at shown key frames) + Observe.tla (cut-and-decode with libaom from every shown key frame equals the full decode)",
         text="Placement and random-access are judged on every stream of a period x refresh-type x levels sweep, incl. streams longer than the picture pools.", note="Sampled periods and lengths.", design="4 (C19)"),
     "C20": dict(category="exploration",
-        technique="trace validation against Bitstream.tla (ToolsOK/TilesOK/sequence switches) of every frame and sequence header for each tool switched off, and expected uniform tile layouts",
-        text="Frame/sequence-level signalling of disabled tools and tile counts.", note="No block-level counters (palette/CfL/OBMC/filter-intra blocks are covered only through frame/sequence switches).", design="4 (C20)"),
+        technique="trace validation against Bitstream.tla (ToolsOK/TilesOK/sequence switches: every frame and sequence header read by the independent parser, expected uniform tile layouts) and BlockTools.tla (block level: per-tool block counts of every temporal unit, read by the repository's decoder built with guarded counters, must be zero for every tool the configuration disables)",
+        text="Frame/sequence-level signalling and block-level use of disabled tools (palette, filter intra, CfL, intrabc, OBMC, local warp, inter-intra, wedge/difference/distance compound) over a corpus with each switch off and default-on controls; tile counts for a grid of sizes x log2 settings.", note="Block counts come from the repository's own decoder (compared with libaom by C08); tools the quick corpus never exercises (reported in the evidence as blocks_using_tool) are checked vacuously there.", design="4 (C20), 11"),
     "C21": dict(category="model_checking",
         technique="trace validation against Observe.tla with stride, padding bytes and post-send buffer reuse as environment (complete product of the listed values), ASan variant in thorough",
         text="Output must equal the plain run for every environment choice.", note="Contents sampled.", design="4 (C21)"),
